@@ -530,6 +530,67 @@ pub open spec fn f_pending(fc: Map<usize, Decimal>, txs: Seq<GbpTransaction>, se
 }
 pub open spec fn pending_claims(fc: Map<usize, Decimal>, txs: Seq<GbpTransaction>, sell_idx: int) -> real { isum(txs.len() as int, f_pending(fc, txs, sell_idx)) }
 
+
+// ---------- C04.merge / C06: what same-day merging must conserve, per (date, security, kind) ----------
+pub open spec fn on_key(tx: GbpTransaction, d: int, t: Seq<char>) -> bool { tx.date.d() == d && tx.ticker@ == t }
+pub open spec fn f_sell_val_on(d: int, t: Seq<char>) -> spec_fn(GbpTransaction) -> real { |tx: GbpTransaction| if on_key(tx, d, t) && tx.operation is Sell { tx.operation->Sell_amount.v() * tx.operation->Sell_price.v() } else { 0real } }
+pub open spec fn f_sell_fee_on(d: int, t: Seq<char>) -> spec_fn(GbpTransaction) -> real { |tx: GbpTransaction| if on_key(tx, d, t) && tx.operation is Sell { tx.operation->Sell_fees.v() } else { 0real } }
+pub open spec fn f_buy_val_on(d: int, t: Seq<char>) -> spec_fn(GbpTransaction) -> real { |tx: GbpTransaction| if on_key(tx, d, t) && tx.operation is Buy { tx.operation->Buy_amount.v() * tx.operation->Buy_price.v() } else { 0real } }
+pub open spec fn f_buy_fee_on(d: int, t: Seq<char>) -> spec_fn(GbpTransaction) -> real { |tx: GbpTransaction| if on_key(tx, d, t) && tx.operation is Buy { tx.operation->Buy_fees.v() } else { 0real } }
+/// the six per-day totals of a list: shares, consideration and fees of the day's sales and of the day's purchases of one security
+pub open spec fn day_totals(s: Seq<GbpTransaction>, d: int, t: Seq<char>) -> (real, real, real, real, real, real) {
+    (rsum(s, f_sell_on(d, t)), rsum(s, f_sell_val_on(d, t)), rsum(s, f_sell_fee_on(d, t)), rsum(s, f_buy_on(d, t)), rsum(s, f_buy_val_on(d, t)), rsum(s, f_buy_fee_on(d, t)))
+}
+pub open spec fn tx_totals(tx: GbpTransaction, d: int, t: Seq<char>) -> (real, real, real, real, real, real) {
+    (f_sell_on(d, t)(tx), f_sell_val_on(d, t)(tx), f_sell_fee_on(d, t)(tx), f_buy_on(d, t)(tx), f_buy_val_on(d, t)(tx), f_buy_fee_on(d, t)(tx))
+}
+pub open spec fn add6(a: (real, real, real, real, real, real), b: (real, real, real, real, real, real)) -> (real, real, real, real, real, real) {
+    (a.0 + b.0, a.1 + b.1, a.2 + b.2, a.3 + b.3, a.4 + b.4, a.5 + b.5)
+}
+/// merged so far + the line being built + the lines still to come have the same per-day totals as the sorted input
+pub open spec fn merge_conserves(merged: Seq<GbpTransaction>, cur: GbpTransaction, rest: Seq<GbpTransaction>, sorted: Seq<GbpTransaction>) -> bool {
+    forall|d: int, t: Seq<char>| #![trigger day_totals(sorted, d, t)] add6(add6(day_totals(merged, d, t), tx_totals(cur, d, t)), day_totals(rest, d, t)) == day_totals(sorted, d, t)
+}
+pub proof fn lemma_totals_push(s: Seq<GbpTransaction>, x: GbpTransaction, d: int, t: Seq<char>)
+    ensures day_totals(s.push(x), d, t) == add6(day_totals(s, d, t), tx_totals(x, d, t))
+{
+    rsum_push(s, x, f_sell_on(d, t)); rsum_push(s, x, f_sell_val_on(d, t)); rsum_push(s, x, f_sell_fee_on(d, t));
+    rsum_push(s, x, f_buy_on(d, t)); rsum_push(s, x, f_buy_val_on(d, t)); rsum_push(s, x, f_buy_fee_on(d, t));
+}
+pub proof fn lemma_totals_head(s: Seq<GbpTransaction>, d: int, t: Seq<char>)
+    requires s.len() > 0
+    ensures day_totals(s, d, t) == add6(tx_totals(s[0], d, t), day_totals(s.skip(1), d, t))
+{
+    assert(s.skip(0) =~= s);
+    rsum_skip_step(s, 0, f_sell_on(d, t)); rsum_skip_step(s, 0, f_sell_val_on(d, t)); rsum_skip_step(s, 0, f_sell_fee_on(d, t));
+    rsum_skip_step(s, 0, f_buy_on(d, t)); rsum_skip_step(s, 0, f_buy_val_on(d, t)); rsum_skip_step(s, 0, f_buy_fee_on(d, t));
+}
+/// merging two same-day same-security lines of one kind at the weighted-average price conserves shares, consideration and fees
+pub proof fn lemma_merge_totals(a: GbpTransaction, b: GbpTransaction, m: GbpTransaction, d: int, t: Seq<char>)
+    requires tx_valid(a), tx_valid(b), a.date.d() == b.date.d(), a.ticker@ == b.ticker@, m.date == a.date, m.ticker@ == a.ticker@,
+        (a.operation is Buy && b.operation is Buy && m.operation is Buy
+            && m.operation->Buy_amount.v() == a.operation->Buy_amount.v() + b.operation->Buy_amount.v()
+            && m.operation->Buy_fees.v() == a.operation->Buy_fees.v() + b.operation->Buy_fees.v()
+            && m.operation->Buy_price.v() == (if m.operation->Buy_amount.v() != 0real { (a.operation->Buy_amount.v() * a.operation->Buy_price.v() + b.operation->Buy_amount.v() * b.operation->Buy_price.v()) / m.operation->Buy_amount.v() } else { a.operation->Buy_price.v() }))
+        || (a.operation is Sell && b.operation is Sell && m.operation is Sell
+            && m.operation->Sell_amount.v() == a.operation->Sell_amount.v() + b.operation->Sell_amount.v()
+            && m.operation->Sell_fees.v() == a.operation->Sell_fees.v() + b.operation->Sell_fees.v()
+            && m.operation->Sell_price.v() == (if m.operation->Sell_amount.v() != 0real { (a.operation->Sell_amount.v() * a.operation->Sell_price.v() + b.operation->Sell_amount.v() * b.operation->Sell_price.v()) / m.operation->Sell_amount.v() } else { a.operation->Sell_price.v() })),
+    ensures tx_totals(m, d, t) == add6(tx_totals(a, d, t), tx_totals(b, d, t))
+{
+    if a.operation is Buy {
+        let (a1, p1, a2, p2) = (a.operation->Buy_amount.v(), a.operation->Buy_price.v(), b.operation->Buy_amount.v(), b.operation->Buy_price.v());
+        let n = a1 * p1 + a2 * p2; let q = a1 + a2;
+        if q != 0real { assert(q * (n / q) == n) by(nonlinear_arith) requires q != 0real; }
+        else { assert(a1 == 0real && a2 == 0real); assert(0real * p1 == 0real && 0real * p2 == 0real) by(nonlinear_arith); }
+    } else {
+        let (a1, p1, a2, p2) = (a.operation->Sell_amount.v(), a.operation->Sell_price.v(), b.operation->Sell_amount.v(), b.operation->Sell_price.v());
+        let n = a1 * p1 + a2 * p2; let q = a1 + a2;
+        if q != 0real { assert(q * (n / q) == n) by(nonlinear_arith) requires q != 0real; }
+        else { assert(a1 == 0real && a2 == 0real); assert(0real * p1 == 0real && 0real * p2 == 0real) by(nonlinear_arith); }
+    }
+}
+
 // ---------- proceeds ----------
 /// C04.pro_rata: the share of the day's sale attributed to a leg of q out of Q shares
 pub open spec fn pro_rata_gross(q: real, price: real) -> real { q * price }
